@@ -5,6 +5,7 @@ package weshnet
 import (
 	"context"
 	"fmt"
+	"os"
 	"sort"
 	"strings"
 	"sync"
@@ -104,6 +105,9 @@ type c08Step struct {
 }
 
 func (s c08Step) String() string {
+	if s.kind == "settle" {
+		return "settle"
+	}
 	if s.kind == "meta" {
 		return fmt.Sprintf("announce(s%d)", s.sender)
 	}
@@ -182,7 +186,12 @@ func c08Run(ctx context.Context, w *vWorld, account *vReplica, mat *c08Material,
 	}()
 	for _, st := range steps {
 		snd := mat.senders[st.sender]
-		if st.kind == "meta" {
+		if st.kind == "settle" {
+			// let the pipeline take up everything that has arrived before the next delivery is made
+			if _, wd := c08Quiesce(gc, gc.MessageStore().OpLog().Len()); wd != "" {
+				out.watchdog = "settle: " + wd
+			}
+		} else if st.kind == "meta" {
 			if err := vDeliver(ctx, gc.MetadataStore(), snd.meta[len(snd.meta)-1:]); err != nil {
 				return nil, err
 			}
@@ -426,6 +435,17 @@ func TestVerifC08(t *testing.T) {
 		// metadata it finds and starts the watcher): nothing that arrives in that window may be lost
 		{"announce-during-activation", 1, 0, 3, func(m *c08Material) []c08Step { return []c08Step{{"meta", 0, 0}, {"msgs", 0, all(0, m)}} }, false, 0, true},
 		{"msgs-and-announce-during-activation", 1, 0, 2, func(m *c08Material) []c08Step { return []c08Step{{"msgs", 0, all(0, m)}, {"meta", 0, 0}} }, false, 0, true},
+		// more messages of one sender parked at the same time than the key window is wide (default window of 100): a burst
+		// of 130 arrives before the sender's chain key; all of them must come out once it is known (un-perturbed and jitter
+		// runs only: each run processes 130 messages)
+		{"burst-130-before-announce", 1, 0, 130, func(m *c08Material) []c08Step {
+			return []c08Step{{"msgs", 0, all(0, m)}, {"settle", 0, 0}, {"meta", 0, 0}}
+		}, false, 0, false},
+		// a late joiner: 130 messages sealed before the announcement (never openable here) and 3 after it, all parked
+		// before the key arrives; the 3 must come out although a large unopenable backlog sits in front of them
+		{"burst-130-unopenable-then-3", 1, 130, 3, func(m *c08Material) []c08Step {
+			return []c08Step{{"msgs", 0, all(0, m)}, {"settle", 0, 0}, {"meta", 0, 0}}
+		}, false, 0, false},
 	}
 	if verifkit.Thorough() {
 		scens = append(scens,
@@ -437,6 +457,15 @@ func TestVerifC08(t *testing.T) {
 		)
 	} else {
 		scens = append(scens, scen{"close-early", 1, 0, 3, func(m *c08Material) []c08Step { return []c08Step{{"msgs", 0, 3}, {"meta", 0, 0}} }, true, 0, false})
+	}
+	if only := os.Getenv("VERIF_C08_ONLY"); only != "" { // development aid: run the scenarios whose name starts with this
+		var sel []scen
+		for _, s := range scens {
+			if strings.HasPrefix(s.name, only) {
+				sel = append(sel, s)
+			}
+		}
+		scens = sel
 	}
 	realisedTotal, plannedTotal, runs := 0, 0, 0
 	instrumented := false
@@ -471,7 +500,8 @@ func TestVerifC08(t *testing.T) {
 		}
 		verifsched.MergeProfile(prof)
 		rep.Distinct(sc.name + "/off")
-		for s := 0; s < 4; s++ {
+		burst := strings.HasPrefix(sc.name, "burst-") // 130 messages per run: a handful of runs only
+		for s := 0; s < 4 && !(burst && s >= 1); s++ {
 			s := s
 			runOnce(fmt.Sprintf("profile-jitter(%d)", s), func() { verifsched.SetJitter(uint64(8000+s), 400, 300*time.Microsecond) })
 			verifsched.MergeProfile(prof)
@@ -514,6 +544,9 @@ func TestVerifC08(t *testing.T) {
 			}
 			kept = thin
 		}
+		if strings.HasPrefix(sc.name, "burst-") {
+			kept = nil
+		}
 		for _, h := range kept {
 			h := h
 			if rep.ViolationCount() > 30 {
@@ -526,7 +559,7 @@ func TestVerifC08(t *testing.T) {
 				rep.Distinct(sc.name + "/" + h.String())
 			}
 		}
-		for s := 0; s < verifkit.Pick(5, 50); s++ {
+		for s := 0; s < verifkit.Pick(5, 50) && !(burst && s >= verifkit.Pick(1, 6)); s++ {
 			s := s
 			runOnce(fmt.Sprintf("jitter(%d)", s), func() { verifsched.SetJitter(uint64(verifkit.Seed())*100+uint64(s), 300, 500*time.Microsecond) })
 			rep.Distinct(fmt.Sprintf("%s/jitter-%d", sc.name, s))
